@@ -22,12 +22,15 @@ def run(tier, seed, t0):
     R.run_inv(Inv("remesh", n, "plain", args=["--oracle=c01", "--max_faces=%d" % T(tier, 400, 1500), "--max_passes=%d" % T(tier, 14, 25), "--cpu_limit=%d" % T(tier, 120, 400)], timeout=T(tier, 1500, 6 * 3600)), seed, wd, m)
     na = T(tier, 32, 600)
     R.run_inv(Inv("remesh", na, "asan", args=["--oracle=c01", "--max_faces=200", "--max_passes=8"], first=n, timeout=T(tier, 1500, 3 * 3600)), seed, wd, m)
+    # one large mesh (40962 nodes, 81920 faces: node and face ids beyond 2^15 / 2^16)
+    R.run_inv(Inv("remesh", T(tier, 1, 8), "plain", args=["--oracle=c01", "--big=1", "--cpu_limit=900"], first=3000000, shards=T(tier, 1, 8), timeout=T(tier, 1500, 3 * 3600), tag="remesh/plain/big"), seed, wd, m)
     floors = {
         "nontrivial_histories": (m.nontrivial, 0.5 * (n + na)),
         "splits": (m.bins.get("splits", 0), 1000), "merges": (m.bins.get("merges", 0), 1000), "swaps_done": (m.bins.get("swaps_done", 0), 20),
         "merges_refused": (m.bins.get("merges_refused", 0), 5), "rebases": (m.bins.get("rebases", 0), 20), "direct_ops": (m.bins.get("direct_ops", 0), 50),
         "invariant_checks": (m.bins.get("invariant_checks", 0), 5000),
         "fan_histories_with_refused_pole_collapse": (m.bins.get("fan_histories_with_refused_pole_collapse", 0), 3),
+        "large_meshes": (m.bins.get("shape:big_ico", 0), 1),
         "regimeA_histories": (m.bins.get("regimeA_histories", 0), 20), "regimeB_histories": (m.bins.get("regimeB_histories", 0), 20),
     }
     return R.finish(ID, tier, seed, m,
